@@ -180,8 +180,9 @@ package expr
 //@   loop 2 invariant inner: fresh(reqs2) && len(reqs2) == len(reqs) && reqs2.off == 0 && 0 <= i && i < len(reqs) && i == rangeidx(1) && req == old(reqs[i]) && req2 != nil && fresh(req2) && allocated(req2) && allocated(schs) && req2.Scopes == old(reqs[i].Scopes) && fresh(schs) && schs.off == 0 && len(schs) == len(old(reqs[i].Schemes))
 //@   loop 2 invariant inner.sch: forall j int :: 0 <= j && j <= rangeidx(2) ==> schs[j] != nil && fresh(schs[j]) && allocated(schs[j]) && schs[j].Kind == old(reqs[i].Schemes[j].Kind) && schs[j].SchemeName == old(reqs[i].Schemes[j].SchemeName) && schs[j].Name == old(reqs[i].Schemes[j].Name) && schs[j].In == old(reqs[i].Schemes[j].In) && schs[j].Scopes == old(reqs[i].Schemes[j].Scopes)
 //@   loop 2 invariant keep.req: forall i2 int :: 0 <= i2 && i2 < i ==> reqs2[i2] != nil && fresh(reqs2[i2]) && allocated(reqs2[i2]) && allocated(reqs2[i2].Schemes) && reqs2[i2].Scopes == old(reqs[i2].Scopes) && len(reqs2[i2].Schemes) == len(old(reqs[i2].Schemes)) && fresh(reqs2[i2].Schemes)
-//   -- every scheme stored into a copied requirement is a fresh object carrying the kind, names and scopes of its source
-//@   at elemstore 1 assert* scheme.copied: index == j && slice == schs && value != nil && fresh(value) && value.Kind == old(reqs[i].Schemes[j].Kind) && value.SchemeName == old(reqs[i].Schemes[j].SchemeName) && value.Name == old(reqs[i].Schemes[j].Name) && value.In == old(reqs[i].Schemes[j].In) && value.Scopes == old(reqs[i].Schemes[j].Scopes)
+//   -- every scheme stored into a copied requirement is an object of its own (allocated for this element, so no two
+//   -- elements share one) carrying the kind, names and scopes of its source
+//@   at elemstore 1 assert* scheme.copied: index == j && slice == schs && value != nil && fresh(value) && value > prev(2, alloc()) && value.Kind == old(reqs[i].Schemes[j].Kind) && value.SchemeName == old(reqs[i].Schemes[j].SchemeName) && value.Name == old(reqs[i].Schemes[j].Name) && value.In == old(reqs[i].Schemes[j].In) && value.Scopes == old(reqs[i].Schemes[j].Scopes)
 //@   at elemstore 2 assert* requirement.stored: index == i && slice == reqs2 && value == req2 && req2.Schemes == schs
 //@   modifies* nothing
 //@   frameprop C06
